@@ -6,7 +6,10 @@ import (
 	"verif/sim/core"
 )
 
-func TestWorker(t *testing.T) { core.WorkerMain(t, Worlds, SelfTest) }
+func TestWorker(t *testing.T) {
+	core.StopExploring = Abandoned
+	core.WorkerMain(t, Worlds, SelfTest)
+}
 
 func TestSelf(t *testing.T) {
 	if err := SelfTest(); err != nil {
